@@ -65,6 +65,7 @@ NATIVE_INI = "[project options]\nmopt = 'm'\n\n[built-in options]\nwarning_level
 OPTION_CLASS = {'mopt': 'm', 'warning_level': 'm', 'pkg_config_path': 'e'}
 ENV_PC = 'env:PKG_CONFIG_PATH=/opt/c09/lib/pkgconfig'
 NF = '--native-file=@NATIVE@'
+PIPE = '--native-file=/dev/stdin'
 PROJECTS = {
     # language-less: fastest (used with --backend=none)
     'plain': {'meson.build': "project('p')\nmessage('opt=' + get_option('opt'))\n", 'meson.options': OPTIONS},
@@ -116,12 +117,18 @@ HISTORIES = [
     History('nf-reconf', 'plain', 'reconfigure', (('setup', NONE, NF, '-Dopt=a', '-Dother=x'),), ('setup', '--reconfigure', '-Dopt=b'), uses_m=True),
     History('nf-conf', 'plain', 'configure', (('setup', NONE, NF, '-Dopt=a'),), ('configure', '-Dopt=b'), uses_m=True),
     History('nf-wipe', 'plain', 'wipe', (('setup', NONE, NF, '-Dopt=a'),), ('setup', '--wipe'), uses_m=True),
+    # the machine file is given as a pipe: meson-private/<uuid>.native.ini is the only copy
+    History('pipe-fresh', 'plain', 'setup', (), ('stdin:native', 'setup', NONE, PIPE, '-Dopt=a'), uses_m=True),
+    History('pipe-reconf', 'plain', 'reconfigure', (('stdin:native', 'setup', NONE, PIPE, '-Dopt=a'),), ('setup', '--reconfigure', '-Dopt=b'), uses_m=True),
+    History('pipe-conf', 'plain', 'configure', (('stdin:native', 'setup', NONE, PIPE, '-Dopt=a'),), ('configure', '-Dopt=b'), uses_m=True),
+    History('pipe-wipe', 'plain', 'wipe', (('stdin:native', 'setup', NONE, PIPE, '-Dopt=a', '-Dother=x'),), ('setup', '--wipe'), uses_m=True),
     History('env-reconf', 'plain', 'reconfigure', ((ENV_PC, 'setup', NONE, '-Dopt=a'),), ('setup', '--reconfigure', '-Dopt=b'), uses_e=True),
     History('env-conf', 'plain', 'configure', ((ENV_PC, 'setup', NONE, NF, '-Dopt=a'),), ('configure', '-Dopt=b'), uses_m=True, uses_e=True),
     History('fail-reconf', 'failable', 'reconfigure', (('setup', '-Dopt=a'),), ('setup', '--reconfigure', '-Dopt=bad'), failed=True),
     History('fail-fresh', 'failable', 'setup', (), ('setup', '-Dopt=bad'), failed=True),
 ]
-QUICK_SET = ('setup-fresh', 'reconf-a', 'conf-a', 'wipe-a', 'ninja-reconf', 'fail-reconf', 'nf-reconf', 'nf-wipe', 'env-conf')
+QUICK_SET = ('setup-fresh', 'reconf-a', 'conf-a', 'wipe-a', 'ninja-reconf', 'fail-reconf', 'nf-reconf', 'nf-wipe', 'env-conf',
+             'pipe-wipe', 'pipe-reconf')
 
 
 # ---------------------------------------------------------------------------
@@ -131,10 +138,17 @@ def split_env(verb_args: T.Sequence[str]) -> T.Tuple[T.Dict[str, str], T.Tuple[s
     """('env:K=V', ..., verb, args...) -> ({K: V}, (verb, args...))"""
     env = {}
     rest = list(verb_args)
-    while rest and rest[0].startswith('env:'):
-        k, v = rest.pop(0)[4:].split('=', 1)
-        env[k] = v
+    while rest and rest[0].startswith(('env:', 'stdin:')):
+        if rest[0].startswith('env:'):
+            k, v = rest[0][4:].split('=', 1)
+            env[k] = v
+        rest.pop(0)
     return env, tuple(rest)
+
+
+def stdin_of(verb_args: T.Sequence[str]) -> T.Optional[str]:
+    """'stdin:native' in front of a command: the machine file is piped to it (--native-file=/dev/stdin)"""
+    return NATIVE_INI if 'stdin:native' in verb_args else None
 
 
 def meson_cmd(verb_args: T.Sequence[str], bdir: Path, src: Path) -> T.List[str]:
@@ -159,10 +173,12 @@ def run_env(run: Path) -> T.Dict[str, str]:
     return e
 
 
-def run_cli(cmd: T.Sequence[str], run: Path, extra_env: T.Optional[T.Dict[str, str]] = None) -> T.Tuple[int, str]:
+def run_cli(cmd: T.Sequence[str], run: Path, extra_env: T.Optional[T.Dict[str, str]] = None,
+            stdin_text: T.Optional[str] = None) -> T.Tuple[int, str]:
     try:
         p = subprocess.run(list(cmd), env=dict(run_env(run), **(extra_env or {})), stdout=subprocess.PIPE, stderr=subprocess.STDOUT,
-                           timeout=CLI_TIMEOUT, text=True, errors='replace', stdin=subprocess.DEVNULL)
+                           timeout=CLI_TIMEOUT, text=True, errors='replace',
+                           **({'input': stdin_text} if stdin_text is not None else {'stdin': subprocess.DEVNULL}))
     except subprocess.TimeoutExpired as e:
         raise MachineryError('meson command timed out: ' + ' '.join(cmd)) from e
     return p.returncode, p.stdout
@@ -199,7 +215,7 @@ def build_pre(w: World, h: History, run: Path) -> Path:
         if c[0] == 'mkdir':
             (bdir / c[1]).mkdir(parents=True)
             continue
-        rc, out = run_cli(meson_cmd(c, bdir, w.src[h.project]), run, split_env(c)[0])
+        rc, out = run_cli(meson_cmd(c, bdir, w.src[h.project]), run, split_env(c)[0], stdin_of(c))
         if rc != 0:
             raise MachineryError(f'pre-history command of {h.id} failed: {c}\n{out[-1500:]}')
     return bdir
@@ -236,7 +252,23 @@ def tracked(rel: str) -> bool:
     return False
 
 
+def concrete(bdir: Path, rel: str, piped: str = '') -> Path:
+    """abstract state-file name -> path in this run ($TMP: the run's TMPDIR; $PIPED: the uuid of the one private
+    machine-file copy - looked up in the directory, or `piped` (seen in the discovery run) when it does not exist yet)"""
+    if rel == '.':
+        return bdir
+    p = bdir.parent / 'tmp' / rel[5:] if rel.startswith('$TMP/') else bdir / rel
+    if '$PIPED' in p.name:
+        hits = sorted(p.parent.glob(p.name.replace('$PIPED', '*-*-*-*-*')))
+        return hits[0] if hits else p.parent / p.name.replace('$PIPED', piped or '00000000-0000-4000-8000-000000000004')
+    return p
+
+
 def existing_state_files(bdir: Path) -> T.List[str]:
+    return [st.abstract_name(x) for x in _existing_state_files(bdir)]
+
+
+def _existing_state_files(bdir: Path) -> T.List[str]:
     out = []
     if bdir.is_dir():
         for sub in ('meson-private', 'meson-info'):
@@ -293,6 +325,10 @@ def project_file(path: Path, rel: str, maps: T.Dict[str, T.Dict[str, T.Any]]) ->
                 vers = _opt_labels([o['value'] for o in obj if o['name'] == 'opt'][0], maps)
         elif name.startswith('build.ninja'):
             full = data.endswith(b'default all\n\n')
+        elif name.endswith('.ini'):
+            cp = configparser.ConfigParser(interpolation=None)
+            cp.read_string(data.decode('utf-8'))
+            full = len(cp.sections()) > 0
     except Exception:
         full = False
     return {'f': rel, 'st': 'full' if full else 'partial', 'vers': vers if full else []}
@@ -301,10 +337,7 @@ def project_file(path: Path, rel: str, maps: T.Dict[str, T.Dict[str, T.Any]]) ->
 def project_state(run: Path, names: T.Sequence[str], maps: T.Dict[str, T.Dict[str, T.Any]]) -> T.List[T.Dict[str, T.Any]]:
     out = []
     for rel in names:
-        if rel.startswith('$TMP/'):
-            out.append(project_file(run / 'tmp' / rel[5:], rel, maps))
-        else:
-            out.append(project_file(run / 'b' / rel if rel != '.' else run / 'b', rel, maps))
+        out.append(project_file(concrete(run / 'b', rel), rel, maps))
     return out
 
 
@@ -317,6 +350,7 @@ class Recorded(T.NamedTuple):
     points: T.List[T.Dict[str, T.Any]]       # per op: syscall, ordinal, killable
     names: T.List[str]
     watch: T.List[str]                       # relative paths handed to strace -P
+    piped: str                               # uuid in the name of the private copy of a piped machine file ('' if none)
     maps: T.Dict[str, T.Dict[str, T.Any]]    # old/new/default option values
     rc: int
 
@@ -340,9 +374,8 @@ def default_values(w: World, project: str) -> T.Dict[str, T.Any]:
     return vals
 
 
-def watch_args(bdir: Path, watch: T.Sequence[str]) -> T.List[str]:
-    return [str(bdir) if rel == '.' else str(bdir.parent / 'tmp' / rel[5:]) if rel.startswith('$TMP/') else str(bdir / rel)
-            for rel in watch]
+def watch_args(bdir: Path, watch: T.Sequence[str], piped: str = '') -> T.List[str]:
+    return [str(concrete(bdir, rel, piped)) for rel in watch]
 
 
 def record(w: World, h: History, defaults: T.Dict[str, T.Any]) -> Recorded:
@@ -351,7 +384,8 @@ def record(w: World, h: History, defaults: T.Dict[str, T.Any]) -> Recorded:
     bdir = build_pre(w, h, run)
     pre_files = existing_state_files(bdir)
     old = (buildoptions(bdir, run) if (bdir / 'meson-info' / 'intro-buildoptions.json').exists() else None) or dict(defaults)
-    rc, out = st.run_strace(meson_cmd(h.cmd, bdir, w.src[h.project]), run / 'discover.log', run_env(run), timeout=CLI_TIMEOUT)
+    rc, out = st.run_strace(meson_cmd(h.cmd, bdir, w.src[h.project]), run / 'discover.log', run_env(run), timeout=CLI_TIMEOUT,
+                            stdin_text=stdin_of(h.cmd))
     if (rc != 0) != h.failed:
         raise MachineryError(f'{h.id}: command ended with {rc} (expected {"failure" if h.failed else "success"})\n{out[-2000:]}')
     events = st.parse_log((run / 'discover.log').read_text(errors='replace'), str(bdir), str(run / 'tmp'))
@@ -360,6 +394,8 @@ def record(w: World, h: History, defaults: T.Dict[str, T.Any]) -> Recorded:
     # build directory that is renamed onto / copied from a state file is watched too
     outside = {e.f for e in events if e.f.startswith('$TMP/') and e.g and tracked(e.g) and e.op in ('rename', 'copy')}
     watch = sorted({x for x in touched if tracked(x)} | set(pre_files) | set(ALWAYS) | outside)
+    inis = sorted((bdir / 'meson-private').glob('*-*-*-*-*.ini')) if (bdir / 'meson-private').is_dir() else []
+    piped = inis[0].name.split('.')[0] if inis else ''
     new = buildoptions(bdir, run)
     if h.failed or new is None:
         new = dict(old)
@@ -375,7 +411,7 @@ def record(w: World, h: History, defaults: T.Dict[str, T.Any]) -> Recorded:
     bdir = build_pre(w, h, run)
     pre_proj = project_state(run, pre_files, maps)
     rc, out = st.run_strace(meson_cmd(h.cmd, bdir, w.src[h.project]), run / 'record.log', run_env(run),
-                            watch=watch_args(bdir, watch), timeout=CLI_TIMEOUT)
+                            watch=watch_args(bdir, watch, piped), timeout=CLI_TIMEOUT, stdin_text=stdin_of(h.cmd))
     if (rc != 0) != h.failed:
         raise MachineryError(f'{h.id}: recorded command ended with {rc}\n{out[-2000:]}')
     events = st.parse_log((run / 'record.log').read_text(errors='replace'), str(bdir), str(run / 'tmp'))
@@ -404,7 +440,7 @@ def record(w: World, h: History, defaults: T.Dict[str, T.Any]) -> Recorded:
     script = {'id': h.id, 'kind': h.kind, 'fresh': not (set(pre_files) & {CORE}), 'failed': h.failed,
               'usesM': h.uses_m, 'usesE': h.uses_e, 'pre': pre, 'ops': ops}
     shutil.rmtree(run, ignore_errors=True)
-    return Recorded(h, script, points, names, watch, maps, rc)
+    return Recorded(h, script, points, names, watch, piped, maps, rc)
 
 
 # ---------------------------------------------------------------------------
@@ -431,7 +467,8 @@ def kill_case(w: World, rec: Recorded, k: int, keep: bool = False) -> T.Dict[str
         bdir = build_pre(w, h, run)
         inject = None if final else (rec.points[k]['syscall'], rec.points[k]['ordinal'])
         rc, out = st.run_strace(meson_cmd(h.cmd, bdir, w.src[h.project]), run / 'kill.log', run_env(run),
-                                watch=watch_args(bdir, rec.watch), inject=inject, timeout=CLI_TIMEOUT)
+                                watch=watch_args(bdir, rec.watch, rec.piped), inject=inject, timeout=CLI_TIMEOUT,
+                                stdin_text=stdin_of(h.cmd))
         events = st.parse_log((run / 'kill.log').read_text(errors='replace'), str(bdir), str(run / 'tmp'))
         mp = st.main_pid(events)
         seen = [{'op': e.op, 'f': e.f, 'g': e.g} for e in events
@@ -451,7 +488,7 @@ def kill_case(w: World, rec: Recorded, k: int, keep: bool = False) -> T.Dict[str
         reconf, ok, fout = follow_up(w, h, run)
         vals = buildoptions(bdir, run) if ok else None
         after = [x for x in project_state(run, [n for n in rec.names if not n.startswith('$TMP/')], rec.maps)]
-        after += [project_file(bdir / n, n, rec.maps) for n in existing_state_files(bdir) if n not in rec.names]
+        after += [project_file(concrete(bdir, n), n, rec.maps) for n in existing_state_files(bdir) if n not in rec.names]
         case = {'id': f'{h.id}@{k}', 'script': 0, 'aborted': h.failed, 'k': min(k, nops), 'final': final, 'crash': crash, 'reconf': reconf,
                 'ok': bool(ok and vals is not None), 'labels': labels_of(vals, rec.maps, rec.script['fresh']),
                 'after': [{'f': x['f'], 'st': x['st']} for x in after],
